@@ -46,6 +46,8 @@ impl tantivy::Warmer for LogWarmer {
 }
 
 struct ReaderCtl {
+    /// register a logging Warmer (tantivy's warmer GC thread outlives its reader: only some runs do)
+    warm: bool,
     slow: AtomicBool,
     stop: AtomicBool,
     reloads: AtomicU64,
@@ -57,7 +59,8 @@ fn reader_thread(rid: usize, dir: SimDir, local_index: Index, remote: bool, trac
     let mut rng = StdRng::seed_from_u64(seed);
     let index = if remote { Index::open(dir.clone()).expect("open second instance") } else { local_index };
     let warmer: Arc<dyn tantivy::Warmer> = Arc::new(LogWarmer { rid, tracer: tracer.clone() });
-    let reader: IndexReader = match index.reader_builder().reload_policy(ReloadPolicy::Manual).warmers(vec![Arc::downgrade(&warmer)]).try_into() {
+    let warmers = if ctl.warm { vec![Arc::downgrade(&warmer)] } else { vec![] };
+    let reader: IndexReader = match index.reader_builder().reload_policy(ReloadPolicy::Manual).warmers(warmers).try_into() {
         Ok(r) => r,
         Err(e) => {
             tracer.emit(json!({"ev":"reader_new","r":rid,"ok":false,"err":format!("{e:?}")}));
@@ -149,7 +152,7 @@ fn run_random(tracer: &Tracer, rng: &mut StdRng, nops: usize, nreaders: usize, r
     let mut w = World::new_quiet(tracer, &cfg, true);
     install_sink(tracer, w.regs.clone(), None);
     w.exec(&json!({"op":"new_writer"}));
-    let ctl = Arc::new(ReaderCtl { slow: AtomicBool::new(false), stop: AtomicBool::new(false), reloads: AtomicU64::new(0) });
+    let ctl = Arc::new(ReaderCtl { warm: tag["run"].as_u64().unwrap_or(0) % 4 == 0, slow: AtomicBool::new(false), stop: AtomicBool::new(false), reloads: AtomicU64::new(0) });
     let mut handles = vec![];
     for rid in 0..nreaders {
         let remote = remote_mix && rid % 2 == 1;
